@@ -112,6 +112,33 @@ CLAIMED.update({
         note="Sequential equality with a reference retain is part of C02."),
 })
 
+CLAIMED.update({
+    "C03": dict(
+        cat="model_checking", ref="DESIGN.md §7 C03",
+        technique="TLC trace validation of recorded life-cycle events (retire with reachability bit, free, guards, canaries, use-after-free announcements of the quarantine allocator) against Trace_Reclaim",
+        text="Scheduled programs with readers holding references across retiring writers (removals, replacements, clears, resizes, tree "
+             "conversions; collector batch 1/2/8/default) and bulk constructors with exact/zero/lying size hints: TLC checks that nothing is "
+             "retired while reachable, retired twice or freed while a guard live at its retirement is live, no hook-announced access hits a "
+             "freed block, no freed block is written, every reference handed out holds until its guard is released.",
+        note="Decided at the level of the reclamation protocol plus the accesses hooks, ledger and checksums can see, not every machine load. "
+             "Trusted: seize 0.3.3 (epoch filtering off in the job's collector), the quarantine allocator."),
+    "C04": dict(
+        cat="model_checking", ref="DESIGN.md §7 C04",
+        technique="instance ledger of instrumented key/value types + tracked-block accounting, validated by TLC against Trace_Reclaim's end condition and double-drop rule",
+        text="Every key/value instance (including clones made by resizes and tree conversions) is dropped exactly once by the time map and "
+             "collector are gone, none twice, no tracked block of the map left allocated; frees of displaced values respect the guards live "
+             "at their retirement (shared with C03's runs).",
+        note="As C03."),
+    "C06": dict(
+        cat="model_checking", ref="DESIGN.md §7 C06",
+        technique="TLC evaluation of the red-black / link-consistency invariants (Trace_RB) on inspector dumps of every tree bin after every step, plus Eq/Ord call counts of lookups",
+        text="Insertion/removal sequences over up to 60 keys with equal hashes, four hash classes per bin and resize splits, plus concurrent "
+             "writers: after every step TLC checks on the real links: ordered by (hash,key), black root, no red-red, equal black height, "
+             "parent/child and prev/next consistency, list set = tree set; lookups of present and absent keys stay within 4*ceil(log2(n+1))+2 "
+             "key comparisons for bins of n >= 8 in tables >= 64.",
+        note="Key Ord total and consistent with Eq. Trusted: inspector, instrumented key comparison counter."),
+})
+
 NOT_APPLICABLE = {
     "C16": "compile-time verdict of rustc's borrow checker over a corpus of programs; there is no state, transition or trace for a TLA+ specification to describe (DESIGN.md §7)",
     "C17": "compile-time verdict of rustc's trait solver (Send/Sync bounds); no state, transition or trace for a TLA+ specification to describe (DESIGN.md §7)",
